@@ -84,7 +84,7 @@ PROPS["C04"]["families"] = [GENERAL_S, fam("fam_num", 60, 1500), fam("fam_bytes"
 PROPS["C19"]["families"] = [GENERAL_S, fam("fam_desc", 60, 1500), fam("fam_textfit", 64, 1600)]
 
 def mc(name, quick=True, **kw):
-    d = {"name": name, "module": name, "cfg": name, "cfg_thorough": name + "_t", "quick": quick, "timeout": 400, "timeout_thorough": 3000}
+    d = {"name": name, "module": name, "cfg": name, "cfg_thorough": name + "_t", "quick": quick, "timeout": 600, "timeout_thorough": 6000}
     d.update(kw)
     return d
 
